@@ -471,7 +471,7 @@ mod if_alloc {
             MutexType: RawMutex,
             T: Clone + 'static,
         {
-            inner: alloc::sync::Arc<
+            inner: alloc::sync::Weak<
                 GenericOneshotChannelSharedState<MutexType, T>,
             >,
         }
@@ -498,24 +498,31 @@ mod if_alloc {
             pub fn verif_snapshot(
                 &self,
                 tag_of: &dyn Fn(&T) -> u64,
-            ) -> crate::verif::Snapshot {
-                let mut snap = self.inner.channel.verif_snapshot(tag_of);
+            ) -> Option<crate::verif::Snapshot> {
+                let inner = self.inner.upgrade()?;
+                let mut snap = inner.channel.verif_snapshot(tag_of);
                 snap.scalars
-                    .push(self.inner.receivers.load(Ordering::SeqCst) as u64);
-                snap
+                    .push(inner.receivers.load(Ordering::SeqCst) as u64);
+                Some(snap)
             }
 
             /// `Debug` rendering of the shared state and of the channel state
-            pub fn verif_debug(&self) -> alloc::string::String
+            pub fn verif_debug(&self) -> Option<alloc::string::String>
             where
                 MutexType: core::fmt::Debug,
                 T: core::fmt::Debug,
             {
-                alloc::format!(
+                let inner = self.inner.upgrade()?;
+                Some(alloc::format!(
                     "{:?} {}",
-                    *self.inner,
-                    self.inner.channel.verif_debug()
-                )
+                    *inner,
+                    inner.channel.verif_debug()
+                ))
+            }
+
+            /// Number of owners (handles, futures, streams) of the shared state
+            pub fn verif_owners(&self) -> usize {
+                self.inner.strong_count()
             }
         }
 
@@ -530,7 +537,7 @@ mod if_alloc {
                 &self,
             ) -> VerifSharedOneshotBroadcast<MutexType, T> {
                 VerifSharedOneshotBroadcast {
-                    inner: self.inner.clone(),
+                    inner: alloc::sync::Arc::downgrade(&self.inner),
                 }
             }
         }
